@@ -429,9 +429,15 @@ pub fn run_balanced(sim: &Sim, _idx: u64) {
     let rounds = sim.range(2, 6) as usize;
     let kill_after: Option<usize> = if sim.chance(1, 3) { Some(sim.range(0, rounds as u64 - 1) as usize) } else { None };
     let netcfg = if sim.chance(1, 2) { NetCfg::ideal() } else { NetCfg { stall_pct: 0, ..NetCfg::draw(sim) } };
+    // The application replaces the endpoint behind key 0 (the discovery stream of
+    // `balance_channel`): the old host is gone for good (every attempt to it is refused), the new
+    // one follows the script. `remove_first`: Remove(0) then Insert(0, new); otherwise Insert over
+    // the live key. From then on only the new endpoint is registered, so the same oracle applies
+    // to it — a call still routed to the old endpoint shows as a failure that never recovers.
+    let replace_after: Option<(usize, bool)> = if sim.chance(1, 3) { Some((sim.range(0, rounds as u64 - 1) as usize, sim.chance(1, 2))) } else { None };
     sim.nontrivial();
-    sim.sample(|| format!("balanced channel over {k} endpoints; connect script {script:?} then reachable; {rounds} rounds; kill all connections after round {kill_after:?}"));
-    sim.ev(|| format!("config: k={k} script={script:?} rounds={rounds} kill_after={kill_after:?}"));
+    sim.sample(|| format!("balanced channel over {k} endpoints; connect script {script:?} then reachable; {rounds} rounds; kill all connections after round {kill_after:?}; endpoint replaced after round {replace_after:?}"));
+    sim.ev(|| format!("config: k={k} script={script:?} rounds={rounds} kill_after={kill_after:?} replace_after={replace_after:?}"));
     let out = run_sim(sim, Duration::from_secs(100_000), || async {
         let (net, connector, rx) = net_and_connector(sim, netcfg, script.clone());
         let handler = Handler::new(sim);
@@ -480,6 +486,17 @@ pub fn run_balanced(sim: &Sim, _idx: u64) {
                 }
                 sim.probe("balanced-connections-killed");
             }
+            if let Some((r, remove_first)) = replace_after {
+                if r == round {
+                    connector.dead_hosts.lock().unwrap().push("sim-a.test".to_string());
+                    if remove_first {
+                        let _ = tx.send(tonic::transport::channel::Change::Remove(0)).await;
+                    }
+                    let _ = tx.send(tonic::transport::channel::Change::Insert(0, tonic::transport::Endpoint::from_static(HOSTS[1]))).await;
+                    sim.ev(|| format!("application: endpoint 0 replaced by {} (remove first: {remove_first}); sim-a.test is gone", HOSTS[1]));
+                    sim.probe("balanced-endpoint-replaced");
+                }
+            }
         }
         // recovery: the script is finite; from now on attempts succeed
         connector.script.lock().unwrap().clear();
@@ -498,6 +515,13 @@ pub fn run_balanced(sim: &Sim, _idx: u64) {
             }
             if failed_calls > failed_attempts(&connector) {
                 return v14(sim, "connect-failure-replayed", format!("balanced channel: {failed_calls} calls have failed but only {} connection attempts did", failed_attempts(&connector)));
+            }
+        }
+        if replace_after.is_some() && last_ok {
+            // the last successful call travelled over a connection to the endpoint now registered
+            let last_host = connector.attempts.lock().unwrap().iter().rev().find(|a| a.conn_id.is_some()).map(|a| a.host.clone());
+            if last_host.as_deref() == Some("sim-b.test") {
+                sim.probe("balanced-call-served-by-replacement-endpoint");
             }
         }
         if last_ok {
